@@ -180,11 +180,43 @@ def r17b(ck, prog):
                      "counters %s are not zeroed before counting" % sorted((first | second | match) - zero), prog.config)
 
 
+def r17c(ck, prog):
+    """the premise 'a file with at least one gap is recognised as an alignment' and the counting itself:
+    detect_aligned totals the gaps of every sequence (shared with R04b), and the pair loop that feeds the shared
+    counters is not distributed over threads (no OpenMP directive encloses the compare_pair call; shared with R02c)."""
+    from . import c04
+    from ..report import Check
+    sub = Check(ck.prop, ck.tier, ck.seed)
+    sub.known = {}
+    c04.r04b(sub, prog)
+    for i in sub.instances:
+        if "gap total" in i["site"] or "UNALIGNED" in i["site"]:
+            ck.inst("R17c", i["site"], i["what"], i["config"])
+    for v in sub.violations:
+        if "coverage" in v["key"] or "gap-span" in v["key"] or "detect_aligned" in v["key"]:
+            ck.violation("R17c", v["key"].replace("R04b", "R17c"), v["site"],
+                         v["msg"] + " (kalign_msa_compare then never finalises such a file and every counter stays zero)", v["config"])
+    K = prog.fn("kalign_msa_compare")
+    for c in K.body.calls("compare_pair"):
+        omp = [a for a in c.ancestors() if "omp" in a.d]
+        ck.inst("R17c", site(prog, c, "sequential"), "the compare_pair loop is %s" % ("under omp " + omp[0].d["omp"] if omp else "sequential"), prog.config)
+        if omp:
+            ck.violation("R17c", "R17c/kalign_msa_compare/omp-%s" % omp[0].d["omp"].split()[0], site(prog, omp[0]),
+                         "the pair loop runs under `omp %s` while compare_pair increments the counters of one shared cmp_stats: "
+                         "increments are lost, the score varies from run to run" % omp[0].d["omp"], prog.config)
+    P = prog.fn("compare_pair")
+    for x in list(P.body.walk()) + list(K.body.walk()):
+        if "omp" in x.d and not any(a is x for c in K.body.calls("compare_pair") for a in c.ancestors()):
+            ck.violation("R17c", "R17c/%s/omp" % x.fn.name, site(prog, x), "OpenMP directive `omp %s` in the comparison code" % x.d["omp"], prog.config)
+
+
 def run(ck, progs):
     describe(ck)
+    ck.rule("R17c", "files with a gap anywhere are recognised as alignments (gap total covers every sequence, = R04b) and the counting loop is not distributed over threads")
     for cfg, prog in progs.items():
         ck.attempt(r17a, ck, prog)
         ck.attempt(r17b, ck, prog)
+        ck.attempt(r17c, ck, prog)
     return ("CFG dominance of both sort calls over the pairing loop, argument pairing and loop ranges of the compare_pair "
             "call, field read set of the row-matching comparator; classification of compare_pair's counters by the row "
             "parameters their loops scan, and reaching definitions of numerator and denominator of the stored score.")
